@@ -164,7 +164,7 @@ def hyp_run(ctx: Ctx, strategy: Any, body: Callable[[Any], None], max_examples: 
     # first failure the body stops checking, hypothesis' final replay then reports Flaky and
     # the smallest failing case seen so far (the shrinker only ever tries smaller candidates)
     # is reported instead.
-    cap = int(os.environ.get("VERIF_SHRINK_CAP", "400" if ctx.tier == "quick" else "2500"))
+    cap = int(os.environ.get("VERIF_SHRINK_CAP", "250" if ctx.tier == "quick" else "2500"))
     if shrink_cap is not None:
         cap = min(cap, shrink_cap)
     state = {"last": None, "after": 0}
